@@ -182,11 +182,12 @@ def run_cwltool(case: dict) -> dict:
     return res
 
 
-def export_provenance(case: dict, sf: dict) -> dict:
+def export_provenance(case: dict, sf: dict, tag: str = "") -> dict:
     """`streamflow prov <name>` on the private database of the run"""
     base = sf["base"]
-    out = _mk(base, "prov")
+    out = _mk(base, "prov" + tag)
     argv = ["prov", case.get("name", "wf"), "--file", os.path.join(base, "streamflow.yml"), "--outdir", out, "--name", "crate.zip"]
+    argv += list(case.get("prov_args", []))
 
     def go():
         import streamflow.main
@@ -194,11 +195,11 @@ def export_provenance(case: dict, sf: dict) -> dict:
         return streamflow.main.main(argv)
 
     rc, wall = _forked(go, os.path.join(base, "cwd"), {"HOME": os.path.join(base, "home"), "TMPDIR": os.path.join(base, "tmp")},
-                       os.path.join(base, "stdin.txt"), os.path.join(base, "prov-stdout.txt"),
-                       os.path.join(base, "prov-stderr.txt"), case.get("timeout", 120))
+                       os.path.join(base, "stdin.txt"), os.path.join(base, f"prov{tag}-stdout.txt"),
+                       os.path.join(base, f"prov{tag}-stderr.txt"), case.get("timeout", 120))
     path = os.path.join(out, "crate.zip")
     return {"rc": rc, "wall": round(wall, 2), "archive": path if os.path.exists(path) else None,
-            "stderr": "" if rc == 0 else _read(os.path.join(base, "prov-stderr.txt"), 3000)}
+            "stderr": "" if rc == 0 else _read(os.path.join(base, f"prov{tag}-stderr.txt"), 3000)}
 
 
 def run_case(case: dict) -> dict:
@@ -209,6 +210,8 @@ def run_case(case: dict) -> dict:
                  else run_cwltool(case))
     if case.get("prov") and res["sf"]["rc"] == 0:
         res["prov"] = export_provenance(case, res["sf"])
+        if case.get("prov_args_alt"):
+            res["prov_alt"] = export_provenance({**case, "prov_args": case["prov_args_alt"]}, res["sf"], tag="-alt")
     for side in ("sf", "ct"):
         if res[side]["out"] is not None:
             res[side]["norm"] = normalize_output(res[side]["out"])
@@ -239,6 +242,57 @@ def enable_bytecode_cache() -> None:
         sys.dont_write_bytecode = False
     except OSError:
         pass
+
+
+def _timed_out(res) -> bool:
+    if not isinstance(res, dict) or "sf" not in res or "ct" not in res:
+        return True
+    sides = [res["sf"], res["ct"]] + [res[k] for k in ("prov", "prov_alt") if isinstance(res.get(k), dict)]
+    return any(x.get("rc") == "timeout" for x in sides)
+
+
+def run_cases_confirmed(cases, workers: int = 8, pool_timeout: float = 2400.0, time_left=None):
+    """run `run_case` over `cases` in the worker pool; every case that timed out there (pool watchdog, lost worker, or one of
+    its runners / the provenance export hitting its own bound) is run AGAIN, alone and sequentially, after the pool has
+    drained, with four times the runner bound (cut to what is left of the budget when `time_left` is given). Yields
+    (case, result) for confirmed results only, each case once. A case that still cannot be completed raises `Unconfirmed`:
+    a time-out of the harness under load is never a disagreement or a violation by itself, the check ends inconclusive."""
+    import shutil
+
+    from sfv.rt.par import pmap
+
+    cases = list(cases)
+    seen, again = set(), []
+    for case, status, res in pmap(run_case, cases, timeout=pool_timeout, workers=workers):
+        if case["id"] in seen:
+            continue
+        seen.add(case["id"])
+        if status != "ok" or _timed_out(res):
+            again.append(case)
+        else:
+            yield case, res
+    again += [c for c in cases if c["id"] not in seen]          # never reported by the pool
+    for case in again:
+        bound = 4 * case.get("timeout", 120)
+        if time_left is not None:
+            left = time_left()
+            if left < 60:
+                raise Unconfirmed(f"case {case.get('id')} timed out in the pool and the budget has no room to re-run it alone")
+            bound = min(bound, left)
+        for sub in ("sf", "ct"):
+            shutil.rmtree(os.path.join(case["dir"], sub), ignore_errors=True)
+        try:
+            res = run_case({**case, "timeout": bound})
+        except Exception as e:  # noqa: BLE001  a harness error is not a finding about the code
+            raise Unconfirmed(f"case {case.get('id')}: harness error when re-run alone: {type(e).__name__}: {e}") from e
+        if _timed_out(res):
+            which = [k for k in ("sf", "ct", "prov", "prov_alt") if isinstance(res.get(k), dict) and res[k].get("rc") == "timeout"]
+            raise Unconfirmed(f"case {case.get('id')} ({case.get('dir')}): {'/'.join(which)} did not finish even alone within {int(bound)} s")
+        yield case, res
+
+
+class Unconfirmed(Exception):
+    """a case that cannot be completed within the budget: the check must end inconclusive (exit 2)"""
 
 
 def warm_up() -> None:
